@@ -50,6 +50,7 @@ W = {
     "repeats": 0.3,       # repeats, endings, barline fermatas
     "groups": 0.5,        # part groups (nested)
     "parts": 0.5,         # more than one part
+    "slurpair": 0.6,      # of the parts with slurs: a nested or overlapping pair of slurs (open together, usually over a barline)
     "sym": 0.25,          # explicit symbolic duration (type, dots, tuplet ratio) on a note/rest, also one that
                           # does not match the numeric duration
     "xtie": 0.35,         # per part: extra ties between ANY note ending at a segment/measure boundary and any
@@ -417,10 +418,28 @@ def decorate_part(rng, ids, part, segments):
     if notes and rng.random() < W["slur"]:
         for _ in range(rng.randint(1, 3)):
             a = rng.choice(notes)
-            later = [n for n in notes if n["t"] > a["t"]]
+            # the end note starts later, or (rarely) at the same time: a chord member or a note of another voice,
+            # so that the stop can precede the start in the document at one position
+            later = [n for n in notes if n["t"] > a["t"]] or [n for n in notes if n["t"] >= a["t"] and n is not a]
+            if rng.random() < 0.1:
+                later = [n for n in notes if n["t"] == a["t"] and n is not a] or later
             if later:
                 b = rng.choice(later)
                 objs.append({"k": "slur", "a": a["id"], "b": b["id"]})
+        if rng.random() < W["slurpair"]:
+            # two slurs open at the same time, nested (1-4, 2-3) or overlapping (1-3, 2-4), over notes of any voices:
+            # the numbers of the open slurs must survive barlines, divisions segments and voice switches
+            times = sorted({n["t"] for n in notes})
+            if len(times) >= 4:
+                t1, t2, t3, t4 = sorted(rng.sample(times, 4))
+                pick = lambda t: rng.choice([n for n in notes if n["t"] == t])
+                n1, n2, n3, n4 = pick(t1), pick(t2), pick(t3), pick(t4)
+                if rng.random() < 0.6:
+                    objs.append({"k": "slur", "a": n1["id"], "b": n4["id"]})
+                    objs.append({"k": "slur", "a": n2["id"], "b": n3["id"]})
+                else:
+                    objs.append({"k": "slur", "a": n1["id"], "b": n3["id"]})
+                    objs.append({"k": "slur", "a": n2["id"], "b": n4["id"]})
     if notes and rng.random() < W["tuplet"]:
         by_voice = {}
         for n in notes:
@@ -1281,7 +1300,7 @@ def run(ctx):
                        "voices are compared by O2 only for scores whose voices are sequential (otherwise the exporter must re-assign; the new voices are checked against the model)"]
     register_matchers(ctx)
     ok, why = ctx.coq_props(expect_min=5)
-    n_scores = 300 if ctx.tier == "quick" else 4000
+    n_scores = 450 if ctx.tier == "quick" else 4000
     mcases, pcases = [], []
     nviol = 0
     fixed = corpus_specs()
